@@ -207,14 +207,14 @@ class ToggleSpec(Spec):
                 host.driver = Driver(1, self.cfg["last"], self.cfg["out"], self.cfg["in2"])
                 try:
                     if ep.startswith("in"):
-                        for _ in range(2 * MPS + 2): host.tick(f)
+                        for _ in range(2 * MPS + 8): host.tick(f)
                         resp = host.send(f, U.token(U.IN, 0, int(ep[2:])), True)
                         k = U.classify_device_packet(resp) if resp is not None else None
                         res.append((1 if k[1] == U.DATA1 else 0) if k is not None and k[0] == "data" and k[1] in (U.DATA0, U.DATA1) else None)
                     else:
                         host.send(f, U.token(U.OUT, 0, 1), False)
                         resp = host.send(f, U.data_packet(U.DATA0, (0x77,)), True)
-                        for _ in range(6): host.tick(f)
+                        for _ in range(12): host.tick(f)
                         if resp is None or U.classify_device_packet(resp) != ("hs", U.ACK): res.append(None)
                         else: res.append(0 if 0x77 in host.driver.out else 1)
                 except PruneCollision:
@@ -280,10 +280,11 @@ class ToggleSpec(Spec):
                 raise Violation("in:no-or-malformed-response", dict(action=a, resp=resp))
             if k[0] == "hs":
                 if k[1] != U.NAK: raise Violation("in:unexpected-handshake", dict(action=a, pid=U.PIDNAME[k[1]]))
-                if ep == 1 and self.cfg["delays"]:
-                    self.cover["in1-drained"] += 1
-                    return f"in{ep}-nak", ctrl
-                raise Violation("in:nak-although-data-is-always-available", dict(action=a))
+                # a NAK never moves a toggle; when (and how soon after an ACK) an endpoint has its next packet ready is not fixed
+                # by the statement, so a NAK is accepted everywhere (the in-ack / in-noack goals guard against vacuity)
+                if ep == 1 and self.cfg["delays"]: self.cover["in1-drained"] += 1
+                self.cover["in-nak"] += 1
+                return f"in{ep}-nak", ctrl
             if k[1] not in (U.DATA0, U.DATA1): raise Violation("in:pid-not-data0-or-data1", dict(pid=U.PIDNAME[k[1]]))
             t = 1 if k[1] == U.DATA1 else 0
             if not (old[name] >> t) & 1:
@@ -301,7 +302,7 @@ class ToggleSpec(Spec):
             payload = (0x40,)
             host.send(cur, U.token(U.OUT, 0, 1), False)
             resp = host.send(cur, U.data_packet(U.DATA1 if t else U.DATA0, payload, corrupt=(var == "badcrc")), True)
-            for _ in range(4): host.tick(cur)
+            for _ in range(12): host.tick(cur)       # generous window for the payload to reach the consumer
             k = U.classify_device_packet(resp) if resp is not None else None
             delivered = list(drv.out)
             if var == "badcrc":
